@@ -18,3 +18,9 @@ package utils
 //@   property C03
 //@   requires !$Deleted
 //@   ensures !$Deleted
+
+// Closing through the logging helper closes the closer it is given.
+//@ func CloseAndLog
+//@   property C09
+//@   effect $AccOpen := false
+//@   ensures !$AccOpen
